@@ -9,17 +9,17 @@ EXPLANATION = ('C13: Spectrum binary operators on an enumerated family of exact-
 BOUNDS = {'quick': 'grid pairs of length 2..4 from the enumerated family (14 pairs) x {+,-,*,/} (and ** with exponents 2, 3) x sampling {min,left,right,float} x unit pairs (sampled 220 configs); scalar and vector operands',
           'thorough': 'grids of length up to 6, all 16 unit pairs, 1500 configs'}
 ASSUMPTIONS = ['interpolation method linear (quadratic/cubic spline fitting is behind scipy and outside the claim)', 'power: integer exponents 2 and 3 (a symbolic exponent has no polynomial normal form)',
-               'division: the divisor spectrum and the fill value are non-zero', 'for units other than nm, grid pairs whose range is an exact multiple of the sampling are skipped: ceil() of the float ratio may land on either side (rounding tie)']
+               'division: the divisor spectrum and the fill value are non-zero', 'operands not in nm: unit conversion in floating point may move a range edge by one ulp (the real code then uses the fill value at that edge sample); excluded under A-REAL, translator validation is skipped for those configurations', 'for units other than nm, grid pairs whose range is an exact multiple of the sampling are skipped: ceil() of the float ratio may land on either side (rounding tie)']
 STUBS = ['scipy.interpolate.interp1d(kind="linear", bounds_error=False, fill_value=v): piecewise-linear interpolant, v outside the range']
 TO_NM = {'nm': Fraction(1), 'um': Fraction(1000), 'm': Fraction(10 ** 9), 'angstrom': Fraction(1, 10)}
 
 # grids in nanometres (exact rationals)
 GRIDS = {
     'u3': [500, 510, 520], 'u4': [500, 510, 520, 530], 'u2': [500, 520], 'fine': [505, 510, 515], 'shift': [515, 525, 535],
-    'touch': [520, 530], 'far': [600, 610, 620], 'nonuni': [500, 503, 520], 'nonuni4': [498, 500, 511, 530], 'odd': [501, 508, 522],
+    'touch': [520, 530], 'far': [600, 610, 620], 'latefine': [500, 512, 515, 530], 'nonuni': [500, 503, 520], 'nonuni4': [498, 500, 511, 530], 'odd': [501, 508, 522],
 }
 PAIRS = [('u3', 'u3'), ('u4', 'fine'), ('u3', 'shift'), ('u3', 'touch'), ('u3', 'far'), ('u3', 'nonuni'), ('nonuni', 'nonuni4'), ('u2', 'odd'),
-         ('fine', 'u4'), ('shift', 'u3'), ('far', 'u3'), ('u4', 'nonuni4'), ('odd', 'shift'), ('u2', 'u2')]
+         ('fine', 'u4'), ('shift', 'u3'), ('far', 'u3'), ('u4', 'nonuni4'), ('odd', 'shift'), ('u2', 'u2'), ('u3', 'latefine'), ('latefine', 'odd')]
 
 
 def configs(tier, seed):
@@ -38,9 +38,17 @@ def configs(tier, seed):
             for other in ('scalar', 'vector'):
                 out.append({'a': a, 'b': a, 'op': op, 'sampling': 'min', 'ua': 'nm', 'ub': 'nm', 'other': other})
     out.append({'a': 'u3', 'b': 'shift', 'op': 'multiply', 'sampling': 'min', 'ua': 'um', 'ub': 'um', 'other': 'spectrum'})
+    for ua, ub in (('nm', 'um'), ('um', 'nm'), ('um', 'um'), ('angstrom', 'nm')):
+        for op in ('add', 'multiply'):
+            out.append({'a': 'u3', 'b': 'odd', 'op': op, 'sampling': 'min', 'ua': ua, 'ub': ub, 'other': 'spectrum', 'valueunit': 'photlam'})
     for a, b in (('u3', 'fine'), ('u2', 'odd'), ('nonuni', 'nonuni4')):
         for op in ('add', 'multiply'):
             out.append({'a': a, 'b': b, 'op': op, 'sampling': 'min', 'ua': 'nm', 'ub': 'nm', 'other': 'spectrum', 'intvalues': True})
+    for c in out:
+        if c['ua'] != 'nm' or c['ub'] != 'nm':
+            # unit conversion in floating point can move a range edge by one ulp, so that the real code sees an edge sample as outside
+            # the operand's range (A-REAL): the symbolic claim stands, the float comparison of translator validation is skipped here
+            c['_novalidate'] = True
     return out, len(out), False
 
 
@@ -73,7 +81,13 @@ def run(W, cfg):
     fill = W.real('fill', pos=nz)
     num = (lambda q: q) if W.sym else float
 
+    vu = cfg.get('valueunit')
+
     def mk(grid, vals, unit):
+        if vu:
+            # a per-wavelength density: the same physical spectrum has values scaled by the unit factor
+            return R.Spectrum(W.array([W.const(g / TO_NM[unit]) for g in grid]), W.array([x * (W.const(TO_NM[unit]) if W.sym else float(TO_NM[unit])) for x in vals]),
+                              waveunit=unit, valueunit=vu)
         if cfg.get('intvalues'):
             return R.Spectrum(W.array([W.const(g / TO_NM[unit]) for g in grid]), rnp.array(list(vals), dtype=int), waveunit=unit)
         return R.Spectrum(W.array([W.const(g / TO_NM[unit]) for g in grid]), W.array(list(vals)), waveunit=unit)
@@ -116,16 +130,25 @@ def run(W, cfg):
     W.ob_true('result is a new spectrum', not W.same(res, sa) and not W.same(res, sb))
     W.ob_true('result carries the first operand\'s unit', res.waveunit == ua)
     W.ob('uniform grid over the union at no more than the requested sampling', res.wave, W.array([W.const(g / TO_NM[ua]) for g in grid]))
-    want = [OPS[cfg['op']](_interp(W, ga, va, q, fill), _interp(W, gb, vb, q, fill)) for q in grid]
+    if vu:
+        # values are per unit of the result's wavelength unit (ua): densities per nm times the nm-per-ua factor
+        fa = W.const(TO_NM[ua]) if W.sym else float(TO_NM[ua])
+        want = [OPS[cfg['op']](_interp(W, ga, [x * fa for x in va], q, fill), _interp(W, gb, [x * fa for x in vb], q, fill)) for q in grid]
+    else:
+        want = [OPS[cfg['op']](_interp(W, ga, va, q, fill), _interp(W, gb, vb, q, fill)) for q in grid]
     W.ob('value = op(interpolated operands, fill outside)', res.value, W.array(want))
-    if cfg['op'] in ('add', 'multiply') and (ua == ub or isinstance(sampling, str)):
+    if cfg['op'] in ('add', 'multiply') and (ua == ub or (isinstance(sampling, str) and not vu)):
         rev = getattr(sb, cfg['op'])(sa, sampling={'left': 'right', 'right': 'left'}.get(sampling, sampling), fill_value=fill)
         W.ob('commutative (values)', rev.value, res.value)
     # both operands still describe the same physical spectrum
     for nm, s, g, v, u in (('a', sa, ga, va, ua), ('b', sb, gb, vb, ub)):
         fac = TO_NM[s.waveunit]
         W.ob(f'operand {nm}: same physical wavelengths afterwards', s.wave * (W.const(fac) if W.sym else float(fac)), W.array([W.const(x) for x in g]))
-        W.ob(f'operand {nm}: same values afterwards', s.value, W.array(list(v)))
+        if vu:
+            fu = W.const(TO_NM[s.waveunit]) if W.sym else float(TO_NM[s.waveunit])
+            W.ob(f'operand {nm}: same values afterwards', s.value, W.array([x * fu for x in v]))
+        else:
+            W.ob(f'operand {nm}: same values afterwards', s.value, W.array(list(v)))
 
 
 HARNESSES = {'binop': {'configs': configs, 'run': run, 'small': 4}}
